@@ -748,11 +748,14 @@ func checkSPSameChecks(r *Report, p *Prog, sc *Scope) {
 					}
 					continue
 				}
-				if _, isParam := ar.(*ssa.Parameter); !isParam {
+				if _, isParam := ar.(*ssa.Parameter); !isParam && !isSigReqType(ar.Type()) {
+					// (the signature token may be a phi: its provenance is C01.sigtoken's subject)
 					okArgs = false
 				}
 			}
-			ok = okArgs
+			if okArgs {
+				ok = true // (the caller may also hand other, plaintext, elements to the parser)
+			}
 		}
 		r.Check(ok, rule, fmt.Sprintf("%s: decrypted element goes to the common assertion parser with the caller's own context", p.FnName(caller)), p.InstrPos(cs.Instr.(ssa.Instruction)), "parseAssertion(decrypted, ids, now, token) under err == nil", "the decrypted assertion is not handed to the common assertion parser with the caller's request IDs, time and signature token")
 	}
